@@ -6,7 +6,14 @@ package batchresource
 //
 // input  : mode qos cfs prev ratio n  then n records (rcf rc lcf lc rmf rm lmf lm)
 //          then optionally amode and, for amode 2 / 3, n records (present rcf rc lcf lc rmf rm lmf lm)
-//   mode  0 runtime-proxy request, 1 NRI request, 2 reconciler request (from the pod object)
+//   mode  0 runtime-proxy request, 1 NRI request, 2 reconciler request (from the pod object); observable =
+//         Response.Resources after SetPodResources / SetContainerResources
+//         3, 4, 5 the same three paths driven through the stage that INJECTS the values, the way the hook
+//         servers and the reconciler do: 3 proxy server (ProxyDone -> the CRI response handed back to the
+//         runtime), 4 NRI server (pod: NriDone -> cgroup updaters handed to the executor; container: NriDone ->
+//         ContainerAdjustment), 5 reconciler (HooksProtocolBuilder contexts, the six registered reconcile
+//         functions one by one on fresh contexts, ReconcilerDone -> cgroup updaters handed to the executor);
+//         observable = the injected cpu.shares / cpu.cfs_quota_us / memory.limit_in_bytes values
 //   qos   0 unmarked, 1 label BE, 2 label LS, 3 label LSR, 4 annotation-only BE, 5 label BE +
 //         annotation LS, 6 label "be" (unknown name), 7 label LS + annotation BE
 //   cfs   0 NodeSLO rule never parsed, 1 NodeSLO without threshold strategy (defaults),
@@ -23,7 +30,12 @@ package batchresource
 //         2 webhook bypassed, the pod carries the FOREIGN / STALE extended-resource-spec annotation given by
 //           the second record list (entry for container i iff present != 0; an entry may name no resource)
 //         3 created with that foreign annotation and admitted by the real webhook (which rewrites it)
-// observable: 6 integers for the pod then 6 per container in spec order:
+//         4 created and admitted by the real webhook, then the annotation is replaced by the foreign one in an
+//           UPDATE sent through the real webhook (handleUpdate does not mutate: the foreign annotation stays)
+//         5 created and admitted by the real webhook with the DisableExtendedResourceSpec feature gate on
+//   then optionally ni and ni records (rcf rc lcf lc rmf rm lmf lm): spec.initContainers i00.. (with
+//         status.initContainerStatuses); their hooks run after those of the containers
+// observable: 6 integers for the pod then 6 per container in spec order, then 6 per init container:
 //   sharesSet shares quotaSet quota memSet mem   (xSet = 0: the hook left the field untouched)
 //
 // Path driven: pod JSON -> PodMutatingHandler.Handle (admission Create; the real webhook writes
@@ -36,6 +48,8 @@ import (
 	"encoding/json"
 	"fmt"
 	"math/rand"
+	"strconv"
+	"strings"
 	"testing"
 
 	nriapi "github.com/containerd/nri/pkg/api"
@@ -53,8 +67,12 @@ import (
 	apiext "github.com/koordinator-sh/koordinator/apis/extension"
 	runtimeapi "github.com/koordinator-sh/koordinator/apis/runtime/v1alpha1"
 	slov1alpha1 "github.com/koordinator-sh/koordinator/apis/slo/v1alpha1"
+	"github.com/koordinator-sh/koordinator/pkg/features"
+	"github.com/koordinator-sh/koordinator/pkg/koordlet/resourceexecutor"
 	"github.com/koordinator-sh/koordinator/pkg/koordlet/runtimehooks/protocol"
 	"github.com/koordinator-sh/koordinator/pkg/koordlet/statesinformer"
+	sysutil "github.com/koordinator-sh/koordinator/pkg/koordlet/util/system"
+	utilfeature "github.com/koordinator-sh/koordinator/pkg/util/feature"
 	"github.com/koordinator-sh/koordinator/pkg/webhook/pod/mutating"
 )
 
@@ -64,7 +82,33 @@ const (
 	vtC14FRec = 9
 )
 
-func vtC14Name(i int) string { return fmt.Sprintf("c%02d", i) }
+func vtC14Name(i int) string     { return fmt.Sprintf("c%02d", i) }
+func vtC14InitName(i int) string { return fmt.Sprintf("i%02d", i) }
+
+func vtC14Set(l *corev1.ResourceList, name corev1.ResourceName, flag, v int64) {
+	if flag == 0 {
+		return
+	}
+	if *l == nil {
+		*l = corev1.ResourceList{}
+	}
+	(*l)[name] = *resource.NewQuantity(v, resource.DecimalSI)
+}
+
+// vtC14Inits adds the init containers (declared amounts as for the containers) and their statuses.
+func vtC14Inits(pod *corev1.Pod, ni int, recs []int64) {
+	for i := 0; i < ni; i++ {
+		r := recs[i*vtC14Rec : (i+1)*vtC14Rec]
+		c := corev1.Container{Name: vtC14InitName(i), Image: "img"}
+		vtC14Set(&c.Resources.Requests, apiext.BatchCPU, r[0], r[1])
+		vtC14Set(&c.Resources.Limits, apiext.BatchCPU, r[2], r[3])
+		vtC14Set(&c.Resources.Requests, apiext.BatchMemory, r[4], r[5])
+		vtC14Set(&c.Resources.Limits, apiext.BatchMemory, r[6], r[7])
+		pod.Spec.InitContainers = append(pod.Spec.InitContainers, c)
+		pod.Status.InitContainerStatuses = append(pod.Status.InitContainerStatuses,
+			corev1.ContainerStatus{Name: c.Name, ContainerID: "containerd://id-" + c.Name})
+	}
+}
 
 func vtC14Pod(qos int64, n int, recs []int64) *corev1.Pod {
 	pod := &corev1.Pod{
@@ -161,6 +205,11 @@ func vtC14Bypass(pod *corev1.Pod) (*corev1.Pod, bool) {
 }
 
 func vtC14Webhook(pod *corev1.Pod) (*corev1.Pod, bool) {
+	return vtC14Admit(pod, nil)
+}
+
+// vtC14Admit: old == nil -> Create, otherwise Update of old into pod.
+func vtC14Admit(pod, old *corev1.Pod) (*corev1.Pod, bool) {
 	sch := runtime.NewScheme()
 	_ = corev1.AddToScheme(sch)
 	_ = configv1alpha1.AddToScheme(sch)
@@ -177,6 +226,14 @@ func vtC14Webhook(pod *corev1.Pod) (*corev1.Pod, bool) {
 		Namespace: pod.Namespace,
 		Object:    runtime.RawExtension{Raw: raw},
 	}}
+	if old != nil {
+		oldRaw, err := json.Marshal(old)
+		if err != nil {
+			return nil, false
+		}
+		req.Operation = admissionv1.Update
+		req.OldObject = runtime.RawExtension{Raw: oldRaw}
+	}
 	resp := h.Handle(context.Background(), req)
 	if !resp.Allowed {
 		return nil, false
@@ -249,6 +306,187 @@ func vtC14Res(r *protocol.Resources) []int64 {
 	return o
 }
 
+// vtC14Executor records the cgroup updaters handed to the resource executor instead of writing files.
+type vtC14Executor struct {
+	got []resourceexecutor.ResourceUpdater
+}
+
+func (e *vtC14Executor) Update(cacheable bool, u resourceexecutor.ResourceUpdater) (bool, error) {
+	e.got = append(e.got, u)
+	return true, nil
+}
+func (e *vtC14Executor) UpdateBatch(cacheable bool, us ...resourceexecutor.ResourceUpdater) {
+	e.got = append(e.got, us...)
+}
+func (e *vtC14Executor) LeveledUpdateBatch(us [][]resourceexecutor.ResourceUpdater) {
+	for _, l := range us {
+		e.got = append(e.got, l...)
+	}
+}
+func (e *vtC14Executor) Run(stopCh <-chan struct{}) {}
+
+// vtC14Written projects the updaters recorded for one cgroup directory: the value for cpu.shares,
+// cpu.cfs_quota_us and memory.limit_in_bytes (the last one written wins); an updater for another directory, another
+// file of interest twice with different values, or an unparsable value yields the error marker.
+func vtC14Written(e *vtC14Executor, dir string) []int64 {
+	o := []int64{0, 0, 0, 0, 0, 0}
+	for _, u := range e.got {
+		var k int
+		switch u.ResourceType() {
+		case sysutil.CPUSharesName:
+			k = 0
+		case sysutil.CPUCFSQuotaName:
+			k = 2
+		case sysutil.MemoryLimitName:
+			k = 4
+		default:
+			return []int64{-8}
+		}
+		v, err := strconv.ParseInt(u.Value(), 10, 64)
+		if err != nil || !strings.Contains(u.Path(), dir) {
+			return []int64{-8}
+		}
+		o[k], o[k+1] = 1, v
+	}
+	return o
+}
+
+func vtC14Lin(r *runtimeapi.LinuxContainerResources) []int64 {
+	o := []int64{0, 0, 0, 0, 0, 0}
+	if r == nil {
+		return o
+	}
+	if r.CpuShares != 0 {
+		o[0], o[1] = 1, r.CpuShares
+	}
+	if r.CpuQuota != 0 {
+		o[2], o[3] = 1, r.CpuQuota
+	}
+	if r.MemoryLimitInBytes != 0 {
+		o[4], o[5] = 1, r.MemoryLimitInBytes
+	}
+	return o
+}
+
+func vtC14Adjust(a *nriapi.ContainerAdjustment) []int64 {
+	o := []int64{0, 0, 0, 0, 0, 0}
+	if a == nil || a.Linux == nil || a.Linux.Resources == nil {
+		return o
+	}
+	if c := a.Linux.Resources.Cpu; c != nil {
+		if c.Shares != nil {
+			o[0], o[1] = 1, int64(c.Shares.Value)
+		}
+		if c.Quota != nil {
+			o[2], o[3] = 1, c.Quota.Value
+		}
+	}
+	if m := a.Linux.Resources.Memory; m != nil && m.Limit != nil {
+		o[4], o[5] = 1, m.Limit.Value
+	}
+	return o
+}
+
+const vtC14PodDir = "kubepods/besteffort/poduid-p"
+
+// vtC14Injected drives the pod through the stage that injects the values (modes 3, 4, 5).
+func vtC14Injected(p *plugin, mode int64, pod *corev1.Pod, names []string) []int64 {
+	obs := make([]int64, 0, 6*(len(names)+1))
+	podMeta := &statesinformer.PodMeta{Pod: pod, CgroupDir: vtC14PodDir}
+	sandbox := &nriapi.PodSandbox{Id: "sb", Name: pod.Name, Namespace: pod.Namespace, Uid: string(pod.UID),
+		Labels: pod.Labels, Annotations: pod.Annotations,
+		Linux: &nriapi.LinuxPodSandbox{CgroupParent: vtC14PodDir}}
+	pm := &runtimeapi.PodSandboxMetadata{Name: pod.Name, Namespace: pod.Namespace, Uid: string(pod.UID)}
+	switch mode {
+	case 3: // proxyserver.PreRunPodSandboxHook / PreCreateContainerHook
+		req := &runtimeapi.PodSandboxHookRequest{PodMeta: pm, Labels: pod.Labels,
+			Annotations: pod.Annotations, CgroupParent: vtC14PodDir}
+		resp := &runtimeapi.PodSandboxHookResponse{Labels: req.GetLabels(), Annotations: req.GetAnnotations(),
+			CgroupParent: req.GetCgroupParent(), Resources: req.GetResources()}
+		podCtx := &protocol.PodContext{}
+		podCtx.FromProxy(req)
+		if err := p.SetPodResources(podCtx); err != nil {
+			return []int64{-6}
+		}
+		ex := &vtC14Executor{}
+		podCtx.ProxyDone(resp, ex)
+		w := vtC14Written(ex, vtC14PodDir)
+		o := vtC14Lin(resp.Resources)
+		if len(w) != 6 {
+			return w
+		}
+		for k := range o { // what is written to the pod cgroup and what is returned to the runtime must agree
+			if w[k] != o[k] {
+				return []int64{-9}
+			}
+		}
+		obs = append(obs, o...)
+		for _, name := range names {
+			creq := &runtimeapi.ContainerResourceHookRequest{PodMeta: pm,
+				ContainerMeta: &runtimeapi.ContainerMetadata{Name: name, Id: "id-" + name},
+				PodLabels:     pod.Labels, PodAnnotations: pod.Annotations, PodCgroupParent: vtC14PodDir}
+			cresp := &runtimeapi.ContainerResourceHookResponse{ContainerAnnotations: creq.GetContainerAnnotations(),
+				ContainerResources: creq.GetContainerResources(), PodCgroupParent: creq.GetPodCgroupParent(),
+				ContainerEnvs: creq.GetContainerEnvs()}
+			cc := &protocol.ContainerContext{}
+			cc.FromProxy(creq)
+			if err := p.SetContainerResources(cc); err != nil {
+				return []int64{-7}
+			}
+			cc.ProxyDone(cresp, &vtC14Executor{})
+			obs = append(obs, vtC14Lin(cresp.ContainerResources)...)
+		}
+	case 4: // nri.RunPodSandbox / CreateContainer
+		podCtx := &protocol.PodContext{}
+		podCtx.FromNri(sandbox)
+		if err := p.SetPodResources(podCtx); err != nil {
+			return []int64{-6}
+		}
+		ex := &vtC14Executor{}
+		podCtx.NriDone(ex)
+		obs = append(obs, vtC14Written(ex, vtC14PodDir)...)
+		for _, name := range names {
+			cc := &protocol.ContainerContext{}
+			cc.FromNri(sandbox, &nriapi.Container{Id: "id-" + name, PodSandboxId: "sb", Name: name})
+			if err := p.SetContainerResources(cc); err != nil {
+				return []int64{-7}
+			}
+			adjust, _, err := cc.NriDone(&vtC14Executor{})
+			if err != nil {
+				return []int64{-7}
+			}
+			obs = append(obs, vtC14Adjust(adjust)...)
+		}
+	default: // reconciler.reconcilePodCgroup with the functions batchresource registers
+		ex := &vtC14Executor{}
+		for _, fn := range []func(protocol.HooksProtocol) error{p.SetPodCPUShares, p.SetPodCFSQuota, p.SetPodMemoryLimit} {
+			ctx := protocol.HooksProtocolBuilder.Pod(podMeta)
+			if err := fn(ctx); err != nil {
+				return []int64{-6}
+			}
+			ctx.ReconcilerDone(ex)
+		}
+		obs = append(obs, vtC14Written(ex, vtC14PodDir)...)
+		// reconcilePodCgroup: status.containerStatuses then status.initContainerStatuses
+		all := append(append([]corev1.ContainerStatus{}, pod.Status.ContainerStatuses...), pod.Status.InitContainerStatuses...)
+		if len(all) != len(names) {
+			return []int64{-3}
+		}
+		for _, st := range all {
+			cex := &vtC14Executor{}
+			for _, fn := range []func(protocol.HooksProtocol) error{p.SetContainerCPUShares, p.SetContainerCFSQuota, p.SetContainerMemoryLimit} {
+				ctx := protocol.HooksProtocolBuilder.Container(podMeta, st.Name)
+				if err := fn(ctx); err != nil {
+					return []int64{-7}
+				}
+				ctx.ReconcilerDone(cex)
+			}
+			obs = append(obs, vtC14Written(cex, vtC14PodDir)...)
+		}
+	}
+	return obs
+}
+
 func vtC14Exec(in []int64) []int64 {
 	mode, qos, cfs, prev, ratio, n := in[0], in[1], in[2], in[3], in[4], int(in[5])
 	rest := in[vtC14Hdr+n*vtC14Rec:]
@@ -257,16 +495,53 @@ func vtC14Exec(in []int64) []int64 {
 		amode = rest[0]
 	}
 	raw := vtC14Pod(qos, n, in[vtC14Hdr:])
+	names := make([]string, 0, n+2)
+	for i := 0; i < n; i++ {
+		names = append(names, vtC14Name(i))
+	}
+	if len(rest) > 0 {
+		rest = rest[1:]
+	}
+	var foreign []int64
+	if amode >= 2 && amode <= 4 {
+		foreign = rest[:n*vtC14FRec]
+		rest = rest[n*vtC14FRec:]
+	}
 	if amode == 2 || amode == 3 {
-		if !vtC14Foreign(raw, n, rest[1:]) {
+		if !vtC14Foreign(raw, n, foreign) {
 			return []int64{-4}
+		}
+	}
+	if len(rest) > 0 {
+		ni := int(rest[0])
+		vtC14Inits(raw, ni, rest[1:])
+		for i := 0; i < ni; i++ {
+			names = append(names, vtC14InitName(i))
 		}
 	}
 	var pod *corev1.Pod
 	var ok bool
-	if amode == 1 || amode == 2 {
+	switch amode {
+	case 1, 2:
 		pod, ok = vtC14Bypass(raw)
-	} else {
+	case 4:
+		var created *corev1.Pod
+		if created, ok = vtC14Webhook(raw); ok {
+			edited := created.DeepCopy()
+			if !vtC14Foreign(edited, n, foreign) {
+				return []int64{-4}
+			}
+			pod, ok = vtC14Admit(edited, created)
+		}
+	case 5:
+		if err := utilfeature.DefaultMutableFeatureGate.Set(string(features.DisableExtendedResourceSpec) + "=true"); err != nil {
+			return []int64{-4}
+		}
+		pod, ok = vtC14Webhook(raw)
+		if err := utilfeature.DefaultMutableFeatureGate.Set(string(features.DisableExtendedResourceSpec) + "=false"); err != nil {
+			return []int64{-4}
+		}
+	default:
 		pod, ok = vtC14Webhook(raw)
 	}
 	if !ok {
@@ -274,8 +549,11 @@ func vtC14Exec(in []int64) []int64 {
 	}
 	p := newPlugin()
 	vtC14Rule(p, cfs, prev, ratio)
+	if mode >= 3 && mode <= 5 {
+		return vtC14Injected(p, mode, pod, names)
+	}
 
-	obs := make([]int64, 0, 6*(n+1))
+	obs := make([]int64, 0, 6*(len(names)+1))
 	podMeta := &statesinformer.PodMeta{Pod: pod, CgroupDir: "kubepods/besteffort/poduid-p"}
 	sandbox := &nriapi.PodSandbox{Id: "sb", Name: pod.Name, Namespace: pod.Namespace, Uid: string(pod.UID),
 		Labels: pod.Labels, Annotations: pod.Annotations,
@@ -297,8 +575,7 @@ func vtC14Exec(in []int64) []int64 {
 	}
 	obs = append(obs, vtC14Res(&podCtx.Response.Resources)...)
 
-	for i := 0; i < n; i++ {
-		name := vtC14Name(i)
+	for _, name := range names {
 		cc := &protocol.ContainerContext{}
 		switch mode {
 		case 0:
@@ -371,6 +648,9 @@ func vtC14Gen(r *rand.Rand, i int) (string, []int64) {
 	mode := int64(r.Intn(3))
 	if style == "stale" && r.Intn(5) < 2 {
 		mode = 2 // the reconciler is the builder that sees both the pod spec and the annotation
+	}
+	if r.Intn(5) < 2 {
+		mode += 3 // through the injecting stage (ProxyDone / NriDone / ReconcilerDone)
 	}
 	qos := int64(1)
 	if r.Intn(4) == 0 {
@@ -459,17 +739,14 @@ func vtC14Gen(r *rand.Rand, i int) (string, []int64) {
 	// foreign extended-resource-spec annotation (or were created with one that the webhook rewrites)
 	amode := int64(0)
 	if style == "stale" {
-		amode = 2
-		if r.Intn(5) == 0 {
-			amode = 3
-		}
+		amode = []int64{2, 2, 2, 4, 4, 3}[r.Intn(6)]
 	} else if r.Intn(4) == 0 {
-		amode = int64(1 + r.Intn(3))
+		amode = int64(1 + r.Intn(5))
 	} else if r.Intn(4) == 0 {
 		return style, in // the format without the trailing amode stays exercised
 	}
 	in = append(in, amode)
-	if amode == 2 || amode == 3 {
+	if amode >= 2 && amode <= 4 {
 		how := r.Intn(6) // how the foreign amounts relate to the declared ones
 		allPresent := r.Intn(5) < 3
 		clampTo := func(v, cap int64) int64 {
@@ -516,6 +793,23 @@ func vtC14Gen(r *rand.Rand, i int) (string, []int64) {
 			}
 			in = append(in, vtB(present))
 			in = append(in, e...)
+		}
+	}
+	// init containers (D11, known finding sig 2): some declare batch resources, some do not
+	if r.Intn(8) == 0 {
+		if amode == 0 && len(in) == vtC14Hdr+n*vtC14Rec {
+			in = append(in, 0) // the init block follows the amode block
+		}
+		ni := 1 + r.Intn(2)
+		in = append(in, int64(ni))
+		for c := 0; c < ni; c++ {
+			all := vtB(r.Intn(3) != 0)
+			cpu, mem := vtC14Amount(r, style, cpuCap), vtC14Amount(r, style, memCap)
+			lc, lm := cpu, mem
+			if r.Intn(4) == 0 {
+				lc, lm = vtC14Amount(r, style, cpuCap), vtC14Amount(r, style, memCap)
+			}
+			in = append(in, all, cpu, all, lc, all, mem, all*vtB(r.Intn(5) != 0), lm)
 		}
 	}
 	return style, in
